@@ -232,6 +232,7 @@ package sm4
 //@     (decreases (bvsub (bvsdiv (len inData) 16) i))))
 
 //@ (func addition
+//@   (returns (off out) 0)
 //@   (ensures nilcase (=> (not (= (len a) (len b))) (isnil out)))
 //@   (ensures len (=> (= (len a) (len b)) (and (= (len out) (len a)) (= (cap out) (len a)) (= (off out) 0))))
 //@   (ensures content (=> (= (len a) (len b)) (forall ((j B64)) (=> (bvult j (len a))
@@ -347,24 +348,65 @@ package sm4
 //@ (func "GCMEncrypt$1" inline)
 //@ (func "GCMDecrypt$1" inline)
 
+// GCM-AE (SP 800-38D 7.1): H = E(K,0), J0, C = GCTR(inc32(J0), P), T = E(K,J0) xor GHASH_H(A, C).
+// Proved: the tag equation over the returned C, and the GCTR equation for every byte outside the last block
+// (ctfull); the bytes of the last, possibly partial, block are covered by the bounded stand-in only (the solvers time
+// out on the MSB/partial-copy step).
+//@ (defmacro gKV () (old (blk128 K)))
+//@ (defmacro gHV () (sm4.enc (gKV) #x00000000000000000000000000000000))
+//@ (defmacro gJ0 () (gcm.j0 (gHV) (old (row IV)) (off IV) (len IV)))
+//@ (defmacro gcph () (payload c "*sm4.Sm4Cipher"))
+//@ (defmacro gsubk () (field (gcph) subkeys))
+//@ (defmacro gkeys () (forall ((j B64)) (=> (bvult j 32)
+//@      (= (select (row (gsubk)) (bvadd (off (gsubk)) j)) (select (sm4.ksrow (gKV)) (bvadd 0 j))))))
+//@ (defmacro gext () (apply-lemma sm4.rounds_ext (r1 (row (gsubk))) (o1 (off (gsubk))) (r2 (sm4.ksrow (gKV))) (o2 0) (dec false) (n 32)))
+//@ (defmacro gextx (x) (apply-lemma sm4.rounds_ext (X x) (r1 (row (gsubk))) (o1 (off (gsubk))) (r2 (sm4.ksrow (gKV))) (o2 0) (dec false) (n 32)))
 //@ (func GCMEncrypt
+//@   (uses "sm4" "sm4:keyed" "modes" "gcm" "gcmsm4")
 //@   (requires keylen (= (len K) 16))
 //@   (requires ivlen (and (bvsge (len IV) 1) (bvsle (len IV) #x0000000010000000)))
 //@   (requires plen (bvsle (len P) #x0000000010000000))
 //@   (ensures clen (= (len C) (len P)))
 //@   (ensures tlen (= (len T) 16))
+//@   (exit-apply (gextx (blk128 Y0)))
+//@   (step nblocks (= (bvmul 16 (bvsub n 1)) (ite (= (len P) 0) 0 (bvmul 16 (bvlshr (bvsub (len P) 1) 4)))))
+//@   (ensures ctfull (forall ((k B64)) (=> (bvult k (ite (= (len P) 0) 0 (bvmul 16 (bvlshr (bvsub (len P) 1) 4))))
+//@                      (= (at C k) (bvxor (old (at P k)) (gcm.ks (gKV) (gJ0) k))))))
+//@   (ensures tag (= (blk128 T) (bvxor (sm4.enc (gKV) (gJ0))
+//@                     (gcm.ghash (gHV) (old (row A)) (off A) (len A) (row C) (off C) (len C)))))
 //@   (loop 1
 //@     (invariant range (and (bvsle 1 i) (bvsle i n)))
+//@     (invariant keys (gkeys))
+//@     (apply (gext))
+//@     (invariant shapes (and (= (len C) (len P)) (fresh-obj C) (= (off C) 0) (= (len Enc) 16) (fresh-obj Enc)
+//@                            (distinct (obj C) (obj Enc))))
+//@     (invariant done (forall ((k B64)) (=> (bvult k (bvmul 16 (bvsub i 1)))
+//@          (= (at C k) (bvxor (at P k) (gcm.ks (gKV) (gJ0) k))))))
 //@     (decreases (bvsub n i))))
 
+// GCM-AD without the comparison (the caller compares tags): the recomputed tag over the received C, and
+// P = GCTR(inc32(J0), C) for every byte outside the last block (last block: bounded stand-in only).
 //@ (func GCMDecrypt
+//@   (uses "sm4" "sm4:keyed" "modes" "gcm" "gcmsm4")
 //@   (requires keylen (= (len K) 16))
 //@   (requires ivlen (and (bvsge (len IV) 1) (bvsle (len IV) #x0000000010000000)))
 //@   (requires clen (bvsle (len C) #x0000000010000000))
 //@   (ensures plen (= (len P) (len C)))
 //@   (ensures tlen (= (len _T) 16))
+//@   (exit-apply (gextx (blk128 Y0)))
+//@   (step nblocks (= (bvmul 16 (bvsub n 1)) (ite (= (len C) 0) 0 (bvmul 16 (bvlshr (bvsub (len C) 1) 4)))))
+//@   (ensures ptfull (forall ((k B64)) (=> (bvult k (ite (= (len C) 0) 0 (bvmul 16 (bvlshr (bvsub (len C) 1) 4))))
+//@                      (= (at P k) (bvxor (old (at C k)) (gcm.ks (gKV) (gJ0) k))))))
+//@   (ensures tag (= (blk128 _T) (bvxor (sm4.enc (gKV) (gJ0))
+//@                     (gcm.ghash (gHV) (old (row A)) (off A) (len A) (old (row C)) (off C) (len C)))))
 //@   (loop 1
 //@     (invariant range (and (bvsle 1 i) (bvsle i n)))
+//@     (invariant keys (gkeys))
+//@     (apply (gext))
+//@     (invariant shapes (and (= (len P) (len C)) (fresh-obj P) (= (off P) 0) (= (len Enc) 16) (fresh-obj Enc)
+//@                            (distinct (obj P) (obj Enc))))
+//@     (invariant done (forall ((k B64)) (=> (bvult k (bvmul 16 (bvsub i 1)))
+//@          (= (at P k) (bvxor (at C k) (gcm.ks (gKV) (gJ0) k))))))
 //@     (decreases (bvsub n i))))
 
 //@ (func Sm4GCM
